@@ -42,7 +42,7 @@ class ClassInfo:
     def find_method(self, name):
         if name in self.methods:
             return self.methods[name], self
-        if name in self.attrs and isinstance(self.attrs[name], ast.Name):
+        if name in self.attrs and isinstance(self.attrs[name], ast.Name) and self.attrs[name].id != name:
             # alias such as  __contains__ = contains
             return self.find_method(self.attrs[name].id)
         for b in self.bases:
@@ -73,7 +73,13 @@ class ModuleInfo:
             if isinstance(st, ast.FunctionDef):
                 self.functions[st.name] = st
             elif isinstance(st, ast.ClassDef):
-                self.classes[st.name] = ClassInfo(st.name, st, self)
+                ci = self.classes[st.name] = ClassInfo(st.name, st, self)
+                for sub in st.body:
+                    if isinstance(sub, ast.ClassDef):
+                        # nested class: registered under its bare name (first definition wins) and reachable as
+                        # an attribute of the outer class
+                        self.classes.setdefault(sub.name, ClassInfo(sub.name, sub, self))
+                        ci.attrs.setdefault(sub.name, ast.Name(id=sub.name, ctx=ast.Load()))
             elif isinstance(st, ast.Assign):
                 for t in st.targets:
                     if isinstance(t, ast.Name):
@@ -135,9 +141,28 @@ def reset_cache():
     _MODS.clear()
 
 
+REGION_SELECTORS = {}   # tag -> selector(FunctionDef) -> [stmt, ...]  (the real statement nodes of the function)
+
+
 def find_function(key, repo=None):
     """key = 'rel/path.py:func' | 'rel/path.py:Class.method' | 'rel/path.py:outer.<locals>.inner'
+             | '<any of those>#<region tag>'  (a statement region of the function, see REGION_SELECTORS)
     -> (ModuleInfo, ClassInfo|None, FunctionDef)"""
+    if "#" in key:
+        base, tag = key.split("#", 1)
+        mod, cls, node = find_function(base, repo)
+        stmts = list(REGION_SELECTORS[tag](node))
+        if not stmts:
+            raise KeyError("region %s not found in %s" % (tag, base))
+        # the region is verified as a parameterless function whose body *is* the selected statement nodes of the
+        # current source; its free variables are typed by the contract (`types`)
+        fn = ast.FunctionDef(name="%s#%s" % (node.name, tag),
+                             args=ast.arguments(posonlyargs=[], args=[], vararg=None, kwonlyargs=[], kw_defaults=[],
+                                                kwarg=None, defaults=[]),
+                             body=stmts, decorator_list=[], returns=None, type_comment=None)
+        fn.lineno, fn.col_offset = stmts[0].lineno, stmts[0].col_offset
+        fn.end_lineno, fn.end_col_offset = stmts[-1].end_lineno, stmts[-1].end_col_offset
+        return mod, cls, fn
     relpath, qual = key.split(":", 1)
     mod = load_module(relpath, repo)
     parts = [p for p in qual.split(".") if p != "<locals>"]
@@ -169,6 +194,13 @@ def find_function(key, repo=None):
 
 def source_hash(mod, node):
     return hashlib.sha256(mod.segment(node).encode("utf-8")).hexdigest()[:16]
+
+
+def loop_header(n):
+    """source text of a loop header: the anchor loop specifications are re-attached by (see loop_anchors.json)"""
+    if isinstance(n, ast.For):
+        return "for %s in %s" % (ast.unparse(n.target), ast.unparse(n.iter))
+    return "while %s" % ast.unparse(n.test)
 
 
 def loops_in(node):
